@@ -72,6 +72,9 @@ pub struct Profile {
     /// chance (of 256) that the condition of a conditional expression outside a control position
     /// may read data (signals, ports, tainted locals) even when `signal_conditions` is off
     pub data_ternary_chance: u32,
+    /// an array declared without initialiser may be filled element by element (structural profiles only:
+    /// the other elements keep Circom's default, which the claims checked there do not depend on)
+    pub elementwise_first: bool,
 }
 
 #[derive(Clone, Debug)]
@@ -115,6 +118,7 @@ impl Profile {
             self_update_bias: 0,
             call_bias: 0,
             data_ternary_chance: 0,
+            elementwise_first: false,
         }
     }
     pub fn sem(template: bool, prime: BigUint) -> Profile {
@@ -149,6 +153,7 @@ impl Profile {
             self_update_bias: 0,
             call_bias: 0,
             data_ternary_chance: 0,
+            elementwise_first: false,
         }
     }
 }
@@ -705,7 +710,7 @@ impl<'a, 'b> Gen<'a, 'b> {
                 Some(st)
             }
             Ty::VarArr(n) => {
-                if !was_assigned || self.t.chance(60) {
+                if (!was_assigned && !(self.p.elementwise_first && self.t.chance(150))) || (was_assigned && self.t.chance(60)) {
                     // whole-array assignment
                     let mut any = false;
                     let elems = (0..n)
@@ -722,6 +727,7 @@ impl<'a, 'b> Gen<'a, 'b> {
                     Some(Stmt::Assign { id, lhs, op: AssignOp::Var, rhs, reversed: false })
                 } else {
                     let ix = self.index_expr(n, 1);
+                    self.assigned.insert(v.key);
                     let (rhs, d) = if self.p.call_bias > 0 && !self.p.helpers.is_empty() && self.t.chance(self.p.call_bias * 2) {
                         // `a[k] = h(e, ..)` with compound arguments: an element without a degree of its own
                         let (name, arity) = self.p.helpers[self.t.below(self.p.helpers.len())].clone();
